@@ -369,7 +369,8 @@ class sumtensor:
         """
         result = self.parts[0].mttkrp(U, n)
         for part in self.parts[1:]:
-            result += part.mttkrp(U, n)
+            # (not in place: the parts' results may have different element types)
+            result = result + part.mttkrp(U, n)
         return result
 
     def ttv(
@@ -437,7 +438,7 @@ class sumtensor:
         scalar_sum = 0.0
         for part in self.parts:
             result = part.ttv(vector, dims, exclude_dims)
-            if isinstance(result, float):
+            if isinstance(result, (int, float, np.number)):
                 scalar_sum += result
             else:
                 new_parts.append(result)
